@@ -477,7 +477,8 @@ class Interp:
         cc = getattr(self, 'call_counts', None)
         if cc is not None:
             cc[fn.key] = cc.get(fn.key, 0) + 1
-        if _is_generator(fn.node) and fn.name in getattr(self, 'eager_generators', ()):
+        if _is_generator(fn.node) and (fn.name in getattr(self, 'eager_generators', ()) or
+                                       (getattr(self, 'concrete_context', False) and not hasattr(self, 'p_' + fn.name))):
             # a generator whose inputs the consumer does not touch: running it to completion first is equivalent
             fr = Frame(fn, fn.module, f.env)
             self.bind(fn, fr, args, kwargs)
@@ -733,6 +734,15 @@ class Interp:
     def e_Constant(self, n, fr):
         return Const(n.value)
 
+    def e_YieldFrom(self, n, fr):
+        f = fr
+        while f is not None and not hasattr(f, 'yields'):
+            f = f.parent
+        if f is None:
+            raise Undecided('yield from outside an eagerly run generator (line %s)' % getattr(n, 'lineno', '?'))
+        f.yields.extend(self.iterate(self.eval(n.value, fr), n))
+        return NONE
+
     def e_Yield(self, n, fr):
         f = fr
         while f is not None and not hasattr(f, 'yields'):
@@ -819,6 +829,8 @@ class Interp:
                                 return TupleV([Const(e.value) for e in ast.walk(st_.value) if isinstance(e, ast.Constant)])
             if attr in ('__qualname__', '__name__') and getattr(self, 'concrete_context', False):
                 return Const(obj.name)
+            if attr == '__bases__' and obj.name == 'object':
+                return TupleV([])
             if attr in ('__module__', '__qualname__', '__name__'):
                 return SymStr('%s.%s' % (obj.name, attr), nonempty=True)
             if attr in ('__repr__', '__str__', '__format__'):
@@ -865,6 +877,8 @@ class Interp:
                 if 'staticmethod' in decos_:
                     return FuncV(meth_)
                 return BoundV(obj, attr)
+            if ('method:' + attr) in self.prims:
+                return BoundV(obj, attr)       # a method of a modelled foreign object
             cattr_ = self._class_attr(obj.cls, attr) if obj.cls.module is not None else None
             if cattr_ is not None:
                 kind_, val_ = cattr_
